@@ -78,3 +78,14 @@ CASES += [
     {"name": "values branch sums the reorganisation energies of the caller's dictionaries", "kind": "mutant", "rule": "C05-U8", "edits": [
         ("quantarhei/qm/corfunctions/correlationfunctions.py", "                for prms in self.params:\n                    self.lamb += prms[\"reorg\"]", "                for prms in p2calc:\n                    self.lamb += prms[\"reorg\"]", 1)]},
 ]
+
+CASES += [
+    {"name": "integro-differential propagator reads the Hamiltonian in the caller's units (the repaired defect)", "kind": "mutant", "rule": "C05-U9", "edits": [
+        ("quantarhei/qm/liouvillespace/integrodiff/integrodiff.py", "        with energy_units(\"int\"):\n            ham = self.ham.data\n", "        if True:\n            ham = self.ham.data\n", 2)]},
+    {"name": "a new calculator keeps a Hamiltonian and uses it in the caller's units", "kind": "mutant", "rule": "C05-U9", "edits": [
+        ("quantarhei/qm/liouvillespace/liouvillian.py", "class Liouvillian(SuperOperator):",
+         "class FreeEvolution:\n    def __init__(self, ham, time):\n        self.ham = ham\n        self.time = time\n    def phases(self):\n        import numpy\n        return numpy.exp(-1j*numpy.diag(self.ham.data)[None, :]*self.time.data[:, None])\n\n\nclass Liouvillian(SuperOperator):", 1)]},
+    {"name": "a new calculator keeps a Hamiltonian and reads it under internal units", "kind": "twin", "edits": [
+        ("quantarhei/qm/liouvillespace/liouvillian.py", "class Liouvillian(SuperOperator):",
+         "class FreeEvolution:\n    def __init__(self, ham, time):\n        self.ham = ham\n        self.time = time\n    def phases(self):\n        import numpy\n        from ...core.managers import energy_units\n        with energy_units(\"int\"):\n            en = numpy.diag(self.ham.data)\n        return numpy.exp(-1j*en[None, :]*self.time.data[:, None])\n\n\nclass Liouvillian(SuperOperator):", 1)]},
+]
